@@ -1,0 +1,12 @@
+//go:build !verif
+// +build !verif
+
+package encoder
+
+// Verification hooks (build tag "verif"). With the tag off they are empty and inlined away.
+
+func VerifSlot(base uintptr, idx uint32, write bool)          {}
+func verifInit(c *RuntimeContext)                             {}
+func verifPtrs(c *RuntimeContext)                             {}
+func verifCodeSet(typeptr uintptr, set *OpcodeSet, index int) {}
+func verifYield(point string)                                 {}
